@@ -1,5 +1,5 @@
 (* C09 -- `loadable` derived: whatever the construction sites of the loaders build is in the domain of the theorems,
-   provided the expressions conform to their classes and the inspector is not in its known gap (F8). *)
+   provided the expressions conform to their classes. *)
 From Coq Require Import List ZArith String Ascii Bool Arith Lia.
 From Verif Require Import Lib.Sexp Model.C09_json Gen.C09_schema Gen.C09_exprs Gen.C09_load Model.C09_expr Model.C09_enc Model.C09_paths
   Model.C09_load Proofs.C09_schema Proofs.C09_mem Proofs.C09_expr Proofs.C09_enc Proofs.C09_paths.
@@ -59,27 +59,19 @@ Proof.
     (visit_variadic_ok "kwarg"); simpl; auto 10.
 Qed.
 
+(* the default the inspector gives a parameter is None or a string, whatever the live default object is (since fix 5db8f3a) *)
+Theorem inspect_default_always_string : forall k d, aval_ok (inspect_default k d) = true.
+Proof.
+  intros k d. unfold inspect_default. destruct (String.eqb k "VAR_POSITIONAL"); [reflexivity|].
+  destruct (String.eqb k "VAR_KEYWORD"); [reflexivity|]. now destruct d.
+Qed.
+
 Theorem inspect_parameter_ok : forall p, sig_src_ok p = true -> param_ok (inspect_parameter p) = true.
 Proof.
   intros [n k a d] H. unfold sig_src_ok in H. cbn [sp_kind sp_annotation sp_default] in H.
-  apply andb_true_iff in H. destruct H as [H Hd]. apply andb_true_iff in H. destruct H as [Hk Ha].
+  apply andb_true_iff in H. destruct H as [Hk Ha].
   unfold inspect_parameter. cbn [sp_name sp_kind sp_annotation sp_default].
-  apply param_ok_intro; [now apply inspect_kind_ok|exact Ha|exact Hd].
-Qed.
-
-(* exactly when the inspector's default is outside the schema: a non-variadic parameter whose default object has a
-   __name__ that is not a string (C09-F8) *)
-Theorem inspect_default_exact : forall k d,
-  default_src_ok k d = false <->
-  (String.eqb k "VAR_POSITIONAL" = false /\ String.eqb k "VAR_KEYWORD" = false /\ exists n, d = DNamed n /\ aval_ok n = false).
-Proof.
-  intros k d. unfold default_src_ok, inspect_default.
-  destruct (String.eqb k "VAR_POSITIONAL"); [split; [discriminate|intros [X _]; discriminate]|].
-  destruct (String.eqb k "VAR_KEYWORD"); [split; [discriminate|intros [_ [X _]]; discriminate]|].
-  destruct d as [|n|r]; simpl.
-  - split; [discriminate|]. intros [_ [_ [n [X _]]]]. discriminate.
-  - split; [intros H; repeat split; eauto|]. intros [_ [_ [m [X Hm]]]]. inversion X. now subst.
-  - split; [discriminate|]. intros [_ [_ [n [X _]]]]. discriminate.
+  apply param_ok_intro; [now apply inspect_kind_ok|exact Ha|apply inspect_default_always_string].
 Qed.
 
 (* ... annotations: a text that does not compile is kept as text, never as the object *)
@@ -141,7 +133,7 @@ Section SrcInd.
 End SrcInd.
 
 (* `loadable`, derived: every tree the construction sites build from sources that are fine (expressions conform to their
-   classes; the inspector is not in gap F8; sections are instances of section classes) is in the domain *)
+   classes; sections are instances of section classes) is in the domain *)
 Theorem built_is_loadable : forall s, src_ok s = true -> ploadable (build s) = true.
 Proof.
   induction s as [name target path lineno endlineno|spec name path fp lineno endlineno doc labels members IH] using src_ind';
@@ -162,13 +154,13 @@ Proof.
   rewrite Forall_forall in IH. exact (IH (n, m) Hx).
 Qed.
 
-(* the property for what the loaders build, modulo the known findings: F6, F7 as decidable predicates of the built tree,
-   F8 inside src_ok *)
+(* the property for what the loaders build, from any working directory, modulo the known finding F7 (a decidable
+   predicate of the built tree) *)
 Theorem loaded_dump_modulo_known : forall cwd s,
-  src_ok s = true -> f7_gap (build s) = false -> f6_gap cwd None (build s) = false ->
+  src_ok s = true -> f7_gap (build s) = false ->
   exists j, dump cwd (build s) = Done j /\ exists fuel, validates_doc fuel j = Some true.
 Proof.
-  intros cwd s Hs H7 H6. apply dump_total_modulo_known; auto using built_is_loadable, built_no_builtin.
+  intros cwd s Hs H7. apply dump_total_modulo_known; auto using built_is_loadable, built_no_builtin.
 Qed.
 
 (* non-vacuity: a static function with every parameter kind and a decorator, an inspected function, a parsed docstring *)
@@ -180,16 +172,10 @@ Definition src_sample : src :=
                            (mkArgs [mkArg "a" ANone ANone] [mkArg "b" (AStr "int") (AStr "1")] (Some (mkArg "args" ANone ANone))
                                    [mkArg "k" ANone (AExpr "ExprName" [FStr "x"])] (Some (mkArg "kw" ANone ANone))) ANone)
                 "f" "m.f" SNotModule (Some 3%Z) (Some 5%Z) None [] []);
-     ("g", SObj (SInspected [mkSig "x" "POSITIONAL_OR_KEYWORD" (AnnText "int" (Some (AExpr "ExprName" [FStr "int"]))) (DNamed (AStr "len"));
+     ("g", SObj (SInspected [mkSig "x" "POSITIONAL_OR_KEYWORD" (AnnText "int" (Some (AExpr "ExprName" [FStr "int"]))) (DNamed "len");
                              mkSig "rest" "VAR_KEYWORD" AnnEmpty DEmpty] (AnnText "<m.K object at 0x1>" None))
                 "g" "m.g" SNotModule None None None [] []);
      ("os", SAlias "os" "os" "m.os" (Some 1%Z) (Some 1%Z))].
 
 Example src_sample_ok : src_ok src_sample = true /\ match dump ["w"] (build src_sample) with Done j => validates_doc 64 j = Some true | Raised _ => False end.
 Proof. split; vm_compute; reflexivity. Qed.
-
-(* the inspector gap (a __name__ that is an int; one that json cannot serialise) is outside src_ok *)
-Example src_gaps_excluded :
-  sig_src_ok (mkSig "x" "POSITIONAL_OR_KEYWORD" AnnEmpty (DNamed (ARaw (JInt 3)))) = false
-  /\ sig_src_ok (mkSig "x" "POSITIONAL_OR_KEYWORD" AnnEmpty (DNamed AObject)) = false.
-Proof. split; reflexivity. Qed.
